@@ -297,3 +297,25 @@ Proof.
   replace (lp + (L - lp))%R with L by ring.
   split; [|reflexivity]. cbn [firstn app]. reflexivity.
 Qed.
+
+(* the hypothesis path[k] <> path[k-1] cannot be dropped: with a zero
+   direction the real formula returns path[k-1] itself, so the new path's
+   polyline length is lengths[k-1], not L (in IEEE arithmetic: 0 * inf = NaN,
+   the D11 class) *)
+Local Open Scope R_scope.
+Lemma adjust_degenerate pp L lp : adjust_R pp pp L lp = pp.
+Proof.
+  unfold adjust_R, adjust_point_g, adjust_coord_g. destruct pp as [x y]. cbn [fst snd].
+  f_equal; rewrite Rminus_diag_eq by reflexivity; rewrite !Rmult_0_l; ring.
+Qed.
+
+(* non-vacuity: (0,0) (3,4) (8,16), natural lengths 0, 5, 18; L = 9 cuts the
+   second segment 4/13 of the way *)
+Example adjust_example :
+  adjust_R (3, 4) (8, 16) 9 5 = (3 + 5 * (4 / 13), 4 + 12 * (4 / 13)).
+Proof.
+  assert (Hne : (3, 4) <> (8, 16)) by (intros H; inversion H; lra).
+  rewrite (adjust_R_formula _ _ 9 5 Hne).
+  assert (E : edist (3, 4) (8, 16) = 13) by (apply edist_eq; cbn [fst snd]; lra).
+  rewrite E. cbn [fst snd]. f_equal; field.
+Qed.
